@@ -48,6 +48,9 @@ func (e *Encoder) NetworkFormat(enable bool) {
 // which TagByteArray, TagIntArray and TagLongArray.
 // To force encode them as TagList, add a struct field tag.
 func (e *Encoder) Encode(v any, tagName string) (err error) {
+	if v == nil {
+		return errors.New("nbt: cannot encode a nil interface")
+	}
 	t, val := getTagType(reflect.ValueOf(v))
 	if e.networkFormat {
 		_, err = e.w.Write([]byte{t})
